@@ -41,7 +41,9 @@
  *        block splitter / super-block writer driven by a producer (scenario family of C06's c06_r2, fix: 3960417 / 65eb70d): a raw-content
  *        dictionary of 2^26 noise bytes, nblocks blocks of B bytes, each filled with up to B/3 three-byte matches whose offset codes
  *        (codeLo..codeHi) differ between the halves of every index range (depth = levels of that tree; depth 9 = 39000 sequences in
- *        256 leaves, aimed at ZSTD_MAX_NB_BLOCK_SPLITS); all answers are valid parses; dstCapacity = ZSTD_compressBound(n) exactly
+ *        256 leaves, aimed at ZSTD_MAX_NB_BLOCK_SPLITS; depth 10 = first half of the sequences incompressible [raw partition], second half long
+ *        matches at the last three offsets of the first half, searchForExternalRepcodes enabled: repeat codes the splitter must reconcile);
+ *        all answers are valid parses; dstCapacity = ZSTD_compressBound(n) exactly
  *        -> <id> OK csize=<n> bound=<n> blocks=<wire blocks> raw=<raw blocks> calls=<producer calls> d=<ok|diff|E..>   |   <id> ERR <name> bound=<n>
  */
 #define ZSTD_STATIC_LINKING_ONLY
@@ -402,6 +404,27 @@ static void cmd_X(char** t) {
     for (b = 0; b < nblocks; b++) {
         size_t const base = b * B; size_t pos = base; size_t const end = base + B; int const aimed = (depth == 9);
         size_t const nseq = aimed ? 39000 : (B / 3) * (size_t)density / 100; size_t j; unsigned const leaves = aimed ? 256u : 1u << depth;
+        if (depth == 10) {
+            /* repeat-offset reconciliation of the splitter: the first half of the sequence indices is incompressible (three-byte matches at
+               offsets of codeLo..codeHi bits: that partition ends up raw, the decoder's history does not move), the second half reuses the
+               LAST THREE offsets of the first half with long matches (repeat codes w.r.t. the history the copier built) */
+            size_t const n1 = B / 14, n2 = n1; unsigned last[3] = {1, 4, 8}; size_t k;
+            for (j = 0; j < n1 + n2; j++) {
+                unsigned ml, ll, off; size_t G;
+                if (j < n1) { unsigned const code = (unsigned)codeLo + (unsigned)(j % ncodes); unsigned const lo = (1u << code) - 3, hi = (2u << code) - 4;
+                    ml = 3; ll = 0; off = lo + xrnd() % (hi - lo + 1); }
+                else { ml = 8 + xrnd() % 4; ll = xrnd() % 2; off = last[xrnd() % 3]; }
+                if (pos + ll + ml > end) break;
+                for (k = 0; k < ll; k++) src[pos + k] = (unsigned char)xrnd();
+                pos += ll; G = x_dn + pos; if (off > G) off = (unsigned)G;
+                for (k = 0; k < ml; k++) x_all[G + k] = x_all[G + k - off];
+                x_recs[x_nrecs].pos = (unsigned)pos; x_recs[x_nrecs].ml = ml; x_recs[x_nrecs].off = off; x_nrecs++;
+                pos += ml;
+                if (j < n1 && off != last[0]) { last[2] = last[1]; last[1] = last[0]; last[0] = off; }
+            }
+            for (; pos < end; pos++) src[pos] = (unsigned char)xrnd();
+            continue;
+        }
         for (j = 0; j < nseq; j++) {
             unsigned const leaf = (unsigned)(j * leaves / (nseq ? nseq : 1)); unsigned code, ml = 3, off, lo, hi; size_t G, k;
             if (aimed) code = (j & 1) ? 18 + ((leaf >> 1) & 7) : 2 + (leaf >> 4);
@@ -428,6 +451,7 @@ static void cmd_X(char** t) {
     if (split) ZSTD_CCtx_setParameter(c, ZSTD_c_useBlockSplitter, split == 1 ? ZSTD_ps_enable : ZSTD_ps_disable);
     if (tcbs) ZSTD_CCtx_setParameter(c, ZSTD_c_targetCBlockSize, tcbs);
     ZSTD_CCtx_setParameter(c, ZSTD_c_validateSequences, val);
+    if (depth == 10) ZSTD_CCtx_setParameter(c, ZSTD_c_searchForExternalRepcodes, ZSTD_ps_enable);   /* level 1 resolves auto to disable: no repeat codes otherwise */
     ZSTD_registerSequenceProducer(c, NULL, xproducer);
     r = ZSTD_CCtx_loadDictionary_advanced(c, x_all, x_dn, ZSTD_dlm_byRef, ZSTD_dct_rawContent);
     if (!ZSTD_isError(r)) r = ZSTD_compress2(c, dst, bound, src, n);
